@@ -7,8 +7,7 @@
 (* All deviations are read-only: the wrong behaviour is a wrong or missing answer.  *)
 EXTENDS CompressorFraming, PaZipStream, TLC
 
-KnownIds == {"C02-KF1", "C02-KF2", "C02-KF3", "C02-KF4", "C02-KF5", "C02-KF6", "C02-KF7", "C02-KF8",
-             "C02-KF9", "C02-KF10", "C02-KF11", "C02-KF12", "C02-KF13", "C02-KF14", "C02-KF15"}
+KnownIds == {"C02-KF3", "C02-KF7", "C02-KF8", "C02-KF13"}
 
 HasF(e, f) == f \in DOMAIN e
 
